@@ -108,6 +108,29 @@ class QueueObj:
             return BoundBuiltin('Queue.get', lambda ex, me: Aw('queue.get'), self)
         if name == 'task_done':
             return BoundBuiltin('Queue.task_done', lambda ex, me: me.world.event('task_done'), self)
+        if name == 'empty':
+            def empty(ex, me):
+                # whether more items are queued is unknown; at most two further items are explored (bounded: the loop body is the
+                # same for every item)
+                me.nowait = getattr(me, 'nowait', 0)
+                if me.nowait >= 2:
+                    me.last_empty = True
+                    return True
+                b = mk_bool(z3.Bool(f'queue_empty!{len(me.world.events)}'))
+                me.last_empty = b
+                return b
+            return BoundBuiltin('Queue.empty', empty, self)
+        if name == 'get_nowait':
+            def get_nowait(ex, me):
+                le = getattr(me, 'last_empty', None)
+                if le is None or le is True or ex.truth(le):
+                    raise PyRaise(make_exc('QueueEmpty', 'queue is empty'))
+                me.nowait = getattr(me, 'nowait', 0) + 1
+                me.last_empty = None
+                item = Opaque(f'queued-item#nowait{me.nowait}')
+                me.world.event('get', item)
+                return item
+            return BoundBuiltin('Queue.get_nowait', get_nowait, self)
         return None
 
 
@@ -119,7 +142,8 @@ class WriterObj:
     def sym_method(self, ex, name):
         if name == 'write':
             def write(ex, me, data):
-                me.world.event('write', me, data)
+                owner = getattr(me.world, 'client_obj', None)
+                me.world.event('write', me, data, owner.attrs.get('writer') if owner is not None else None)
             return BoundBuiltin('writer.write', write, self)
         if name == 'drain':
             return BoundBuiltin('writer.drain', lambda ex, me: Aw('drain', writer=me), self)
@@ -127,6 +151,10 @@ class WriterObj:
             return BoundBuiltin('writer.close', lambda ex, me: me.world.event('writer.close', me), self)
         if name == 'get_extra_info':
             return BoundBuiltin('writer.get_extra_info', lambda ex, me, *a: None, self)
+        if name == 'wait_closed':
+            return BoundBuiltin('writer.wait_closed', lambda ex, me: Aw('wait_closed', writer=me), self)
+        if name == 'is_closing':
+            return BoundBuiltin('writer.is_closing', lambda ex, me: mk_bool(z3.Bool(f'{me.name}.is_closing!{len(me.world.events)}')), self)
         return None
 
 
@@ -187,6 +215,7 @@ B.EXT_HOOKS['asyncio.Queue'] = Builtin('asyncio.Queue', lambda ex, *a, **k: Queu
 B.EXT_HOOKS['asyncio.Lock'] = Builtin('asyncio.Lock', lambda ex: LockObj(world(ex)))
 B.EXT_HOOKS['asyncio.CancelledError'] = ExcClass('CancelledError')
 B.EXT_HOOKS['asyncio.IncompleteReadError'] = ExcClass('IncompleteReadError')
+B.EXT_HOOKS['asyncio.QueueEmpty'] = ExcClass('QueueEmpty')
 B.EXT_HOOKS['logging.getLogger'] = Builtin('logging.getLogger', lambda ex, *a: Opaque('logger'))
 B.EXT_HOOKS['serial_asyncio.open_serial_connection'] = Builtin('open_serial_connection', lambda ex, *a, **k: Aw('open_connection', args=a, kwargs=k))
 
